@@ -142,6 +142,44 @@ class Registry:
 
 # --------------------------------------------------------------------------- types
 
+def _stype_class(term, reg: Registry):
+    """<<"stype", name, A>>: a user class implementing SerializableType(use_annotations=True) around ONE value of type A"""
+    key = jkey(term)
+    if key in reg.by_def:
+        return reg.by_def[key]
+    from mashumaro.types import SerializableType
+    inner = concretize_type(term[2], reg)
+    pyname = reg._pyname(term[1])
+
+    def __init__(self, x):
+        self.x = x
+
+    def __eq__(self, other):
+        return type(other) is type(self) and other.x == self.x
+
+    def __hash__(self):
+        return hash((type(self).__name__, self.x))
+
+    def __repr__(self):
+        return f"{type(self).__name__}({self.x!r})"
+
+    def _serialize(self):
+        return self.x
+
+    def _deserialize(cls, value):
+        return cls(value)
+    _serialize.__annotations__ = {"return": inner}
+    _deserialize.__annotations__ = {"value": inner}
+    ns = {"__module__": reg.modname, "__qualname__": pyname, "__init__": __init__, "__eq__": __eq__, "__hash__": __hash__, "__repr__": __repr__,
+          "_serialize": _serialize, "_deserialize": classmethod(_deserialize)}
+    import types as _types
+    cls = _types.new_class(pyname, (SerializableType,), {"use_annotations": True}, lambda n: n.update(ns))
+    reg.by_def[key] = cls
+    reg._register(cls, term[1], term)
+    reg.stypes = getattr(reg, "stypes", set()) | {cls}
+    return cls
+
+
 def _enum_class(term, reg: Registry):
     key = jkey(term)
     if key in reg.by_def:
@@ -342,6 +380,8 @@ def concretize_type(t, reg: Registry):
             setattr(reg.module, nt.__name__, nt)
             reg.by_def[key] = nt
         return reg.by_def[key]
+    if tag == "stype":
+        return _stype_class(t, reg)
     if tag == "final":
         return typing.Final[concretize_type(t[1], reg)]
     if tag == "annotated":
@@ -450,6 +490,8 @@ def concretize_value(v, reg: Registry):
         return collections.ChainMap(*[concretize_value(m, reg) for m in v[1]])
     if tag == "nt":
         return reg.by_name[v[1]](*[concretize_value(e, reg) for e in v[2]])
+    if tag == "sobj":
+        return reg.by_name[v[1]](concretize_value(v[2], reg))
     if tag == "obj":
         cls = reg.by_name[v[1]]
         fields = dataclasses.fields(cls)
@@ -555,6 +597,8 @@ def abstract_value(x, reg: Registry | None = None):
         return ["ChainMap", [abstract_value(m, reg) for m in x.maps]]
     if reg is not None and t in reg.term_name:
         name = reg.term_name[t]
+        if t in getattr(reg, "stypes", ()):
+            return ["sobj", name, abstract_value(x.x, reg)]
         if isinstance(x, enum.Flag):
             return ["flag", name, int(x.value)]
         if isinstance(x, enum.Enum):
